@@ -11,6 +11,7 @@ From ADV Require Import Base.Num C06.Model C06.Spec C06.ParamT C06.ProofsAlg C06
 From ADV Require Import C04.Model2 C04.ProofsBuf C06.Model32 C06.ModelBuf C06.ParamT2 C06.ProofsBuf C06.ProofsBuf2 C06.ProofsVal32
                         C06.ProofsJacobi C06.ProofsOpen C06.ProofsLdl C06.ProofsInv3 C06.ProofsGS2.
 From ADV Require C06.ProofsDetN.
+From ADV Require Import C06.ModelOpt C06.ParamT3 C06.ProofsOpt C06.ProofsOptBuf.
 Import ListNotations.
 Open Scope R_scope.
 
@@ -407,11 +408,100 @@ Theorem logdet_jets_general_n : forall n s k o x, 0 < outR (p_det n) s 0 x ->
   holds k o (fun y => ln (outR (p_det n) s 0 y)) x (evalJ k o x (ELog (ProofsDetN.det_E n s x))).
 Proof. exact ProofsDetN.logdet_jets_general_n_out. Qed.
 
+(* (10) round 5: type dispatch under option combinations.
+   [chol_dispatch] / [gj_dispatch] are the type dispatches of cholesky.Run / gaussJordan.Run in source order;
+   [src_table] is the table of (option flags, concrete-type assertions, callee) rows that harness/c06/dispatch.go
+   extracts from the Go source with go/ast on every run (Corr.KDisp compares them).
+   (a) the table, read first-match, IS the dispatch function, for every option set and every combination of
+       concrete types the assertions can see (Float32 / Float64 / anything else, per asserted expression) *)
+Theorem source_table_is_cholesky_dispatch : forall ldl fpd tA tL tD tS tT,
+  interp (chol_flags ldl fpd) (chol_tys tA tL tD tS tT) (src_table 0) = Some (kern_name (chol_dispatch ldl fpd tA tL tD tS tT)).
+Proof. exact src_table_is_chol_dispatch. Qed.
+Theorem source_table_is_gauss_jordan_dispatch : forall ut ta tb tx,
+  interp (gj_flags ut) (gj_tys ta tb tx) (src_table 1) = Some (kern_name (gj_dispatch ut ta tb tx)).
+Proof. exact src_table_is_gj_dispatch. Qed.
+(* (b) whatever the types, the kernel reached computes the program of the OPTION SET (LDL x ForcePD; UpperTriangular):
+       the type dispatch selects a copy, never another algorithm; the Float64 copy runs iff every assertion holds *)
+Theorem dispatch_respects_options_cholesky : forall ldl fpd tA tL tD tS tT n,
+  kern_prog (chol_dispatch ldl fpd tA tL tD tS tT) n = chol_prog ldl fpd n.
+Proof. exact chol_kernel_program. Qed.
+Theorem dispatch_respects_options_gauss_jordan : forall ut ta tb tx n,
+  kern_prog (gj_dispatch ut ta tb tx) n = p_gj ut n.
+Proof. exact gj_kernel_program. Qed.
+Theorem cholesky_specialised_iff_all_assertions : forall ldl fpd tA tL tD tS tT,
+  snd (chol_dispatch ldl fpd tA tL tD tS tT) = IF64 <->
+  (tA = CF64 /\ tL = CF64 /\ tS = CF64 /\ tT = CF64 /\ (ldl = true -> tD = CF64)).
+Proof. exact chol_fast64_iff. Qed.
+(* (c) per row pair of one option set: ANY row on magic scalars (k activated entries, order ord) returns the
+       factors AND the error status of ANY row on plain scalars - every carrier with one square root, every
+       input (not positive definite with ForcePD, singular, NaN ... included) *)
+Theorem cholesky_rows_agree : forall A (D : NumD A) (k ord : nat),
+  (forall a, nsqrt (M5.nx (dx D)) a = M5.gsqrt (dx D) a) ->
+  forall ldl fpd tA tL tD tS tT tA' tL' tD' tS' tT' n (inp : list (jet A)),
+  option_map (map jv) (kern_prog (chol_dispatch ldl fpd tA tL tD tS tT) n (jet A) (NumXJ D k ord) (jlog D k ord) inp)
+  = kern_prog (chol_dispatch ldl fpd tA' tL' tD' tS' tT') n A (dx D) (nlog D) (map jv inp).
+Proof. exact (@chol_rows_agree). Qed.
+Theorem gauss_jordan_rows_agree : forall A (D : NumD A) (k ord : nat),
+  (forall a, nsqrt (M5.nx (dx D)) a = M5.gsqrt (dx D) a) ->
+  forall ut ta tb tx ta' tb' tx' n (inp : list (jet A)),
+  option_map (map jv) (kern_prog (gj_dispatch ut ta tb tx) n (jet A) (NumXJ D k ord) (jlog D k ord) inp)
+  = kern_prog (gj_dispatch ut ta' tb' tx') n A (dx D) (nlog D) (map jv inp).
+Proof. exact (@gj_rows_agree). Qed.
+(* every option set of cholesky.Run (LDL x ForcePD), gaussJordan.Run (UpperTriangular x Submatrix),
+   matrixInverse.Run (PositiveDefinite x UpperTriangular x Submatrix) and determinant.Run (PositiveDefinite) *)
+Theorem every_option_set_magic_equals_plain : forall A (D : NumD A) (k ord : nat),
+  (forall a, nsqrt (M5.nx (dx D)) a = M5.gsqrt (dx D) a) ->
+  forall (r o : nat) (d : list nat) (inp : list (jet A)),
+  option_map (map jv) (opt_prog r o d (jet A) (NumXJ D k ord) (jlog D k ord) inp)
+  = opt_prog r o d A (dx D) (nlog D) (map jv inp).
+Proof. exact (@option_set_values). Qed.
+(* satisfiable and non-trivial: ForcePD on the indefinite [[0,1],[1,0]] over binary64 returns factors (LDL alone
+   reports "not positive definite"), the same through the magic carrier *)
+Example force_pd_indefinite_binary64 :
+  chol_prog true false 2 float NumXFg (fun x => x) [0; 1; 1; 0]%float = None /\
+  (exists l, chol_prog true true 2 float NumXFg (fun x => x) [0x1p-67; 0x1p-67; 0; 1; 1; 0]%float = Some l) /\
+  option_map (map jv) (chol_prog true true 2 (jet float) (NumXJ NumDFg 1 1) (jlog NumDFg 1 1)
+                         (map jconst [0x1p-67; 0x1p-67; 0; 1; 1; 0]%float))
+  = chol_prog true true 2 float NumXFg (fun x => x) [0x1p-67; 0x1p-67; 0; 1; 1; 0]%float.
+Proof. exact force_pd_example. Qed.
+
+(* (11) round 5: recycled FACTOR buffers of the LDL kernels.  [ldl_buf] / [fpd_buf] are cholesky_ldl /
+   cholesky_ldl_forcepd as matrix-state machines over explicit buffers L0 (InSitu.L) and D0 (InSitu.D), every write
+   of the Go text an mset (tied: Corr.KO replays them on every LDL / ForcePD row).  For EVERY carrier - the jet
+   carrier included: value, activity, gradient and Hessian of every buffer entry - and every input, the factors
+   and the error status do not depend on what the buffers held (an earlier, different factor; its strictly upper
+   triangle; a dense inverse; garbage) *)
+Theorem ldl_factor_buffers_do_not_leak : forall A (X : M5.NumX A) n (Am L0 D0 L0' D0' : list (list A)),
+  wfm n L0 -> wfm n L0' -> wfm n D0 -> wfm n D0' -> ldl_buf X n Am L0 D0 = ldl_buf X n Am L0' D0'.
+Proof. exact (@ldl_buf_indep). Qed.
+Theorem force_pd_factor_buffers_do_not_leak : forall A (X : M5.NumX A) n (Am : list (list A)) bfloor delta (L0 D0 L0' D0' : list (list A)),
+  wfm n L0 -> wfm n L0' -> wfm n D0 -> wfm n D0' ->
+  fpd_buf X n Am bfloor delta L0 D0 = fpd_buf X n Am bfloor delta L0' D0'.
+Proof. exact (@fpd_buf_indep). Qed.
+Theorem ldl_recycled_equals_fresh : forall A (X : M5.NumX A) (lg : A -> A) n (bL bD data : list A),
+  length bL = (n * n)%nat -> length bD = (n * n)%nat ->
+  p_ldl_buf n A X lg (bL ++ bD ++ data) = p_ldl_fresh n A X lg data /\
+  p_fpd_buf n A X lg (bL ++ bD ++ data) = p_fpd_fresh n A X lg data.
+Proof. intros A X lg n bL bD data HL HD. exact (conj (ldl_prog_buf_indep X lg n bL bD data HL HD) (fpd_prog_buf_indep X lg n bL bD data HL HD)). Qed.
+(* hence on magic scalars: the recycled run (arbitrary jets in both factor buffers) returns the values and the error
+   status of the fresh run on plain scalars *)
+Theorem ldl_recycled_magic_equals_fresh_plain : forall A (D : NumD A) (k ord n : nat) (bL bD data : list (jet A)),
+  (forall a, nsqrt (M5.nx (dx D)) a = M5.gsqrt (dx D) a) ->
+  length bL = (n * n)%nat -> length bD = (n * n)%nat ->
+  option_map (map jv) (p_ldl_buf n (jet A) (NumXJ D k ord) (jlog D k ord) (bL ++ bD ++ data))
+    = p_ldl_fresh n A (dx D) (nlog D) (map jv data) /\
+  option_map (map jv) (p_fpd_buf n (jet A) (NumXJ D k ord) (jlog D k ord) (bL ++ bD ++ data))
+    = p_fpd_fresh n A (dx D) (nlog D) (map jv data).
+Proof. exact (@ldl_recycled_magic). Qed.
+
 (* Not proved (stated for the record):
    inverse_3x3_values_partial - that the straight-line programs inv3_E_ne / inv3_E_ex evaluate to the entries of the
      inverse is not proved symbolically (2x2: proved); the general theorem all_routines_derivatives + the bit-exact
      derivative replay + the closed-formula certificates (Corr.KF kind 0) tie it.
    cholesky_models_agree_partial - the buffer-taking Cholesky model is C04's (M4.cholesky), the fresh p_chol is C05's
      (M5.cholesky); their equality is not proved (both are tied to Go on the same cases, fresh and recycled).
-   recycled LDL / Gram-Schmidt / Hessenberg / tri-/bidiagonalisation buffers: tie only (Go's recycled run = the
+   ldl_models_agree_partial - the buffer-taking LDL / ForcePD machines (ModelOpt.ldl_buf / fpd_buf) and C05's column-list
+     models (M5.cholesky_ldl / cholesky_ldl_forcepd, used by the derivative theorems) are not proved equal; both are
+     replayed against Go on the same rows (Corr.KO).
+   recycled Gram-Schmidt / Hessenberg / tri-/bidiagonalisation buffers: tie only (Go's recycled run = the
      fresh model term), no buffer-taking model. *)
